@@ -55,9 +55,9 @@ class AsyncCache(SyncCache):
         self.d.pop(k, None)
 
 
-def id_token(name, nonce, client_id, rotated=False):
+def id_token(name, nonce, client_id, rotated=False, iss_suffix=""):
     from authlib.jose import jwt
-    claims = {"iss": f"https://{name}.example", "sub": "u1", "aud": client_id, "exp": CLOCK.now + 600, "iat": CLOCK.now}
+    claims = {"iss": f"https://{name}.example" + iss_suffix, "sub": "u1", "aud": client_id, "exp": CLOCK.now + 600, "iat": CLOCK.now}
     if nonce is not None:
         claims["nonce"] = nonce
     return jwt.encode({"alg": "HS256", "kid": "k2" if rotated else "k1"}, claims, JWK2 if rotated else JWK).decode()
@@ -148,7 +148,7 @@ class ClientWorld:
             return {"error": "invalid_grant", "error_description": "refused by the provider"}
         tok = {"access_token": "at-" + str(len(self.sent)), "token_type": "Bearer"}
         if self.next_id_nonce is not False:
-            tok["id_token"] = id_token(name, self.next_id_nonce, "cid-" + name, rotated=self.rotate)
+            tok["id_token"] = id_token(name, self.next_id_nonce, "cid-" + name, rotated=self.rotate, iss_suffix=getattr(self, "next_id_iss", "") or "")
         return tok
 
     def _oauth1_endpoint(self, url, headers):
@@ -230,12 +230,13 @@ class ClientWorld:
             return {"out": "saved", "state": q.get("oauth_token"), "url_redirect": None, "url_challenge": None, "url_nonce": None, "callback": self.last_callback}
         return {"out": "saved", "state": q.get("state"), "url_redirect": q.get("redirect_uri"), "url_challenge": q.get("code_challenge"), "url_nonce": q.get("nonce")}
 
-    def callback(self, sess, name, state, code="c0de", id_nonce=False, fail=False):
+    def callback(self, sess, name, state, code="c0de", id_nonce=False, fail=False, id_iss=""):
         """id_nonce: False = the token response carries no ID token; None = ID token without nonce; str = ID token with that nonce"""
         from authlib.integrations.base_client.errors import MismatchingStateError, OAuthError
         s = self.sessions[sess]
         fw = self.framework
         self.next_id_nonce = id_nonce
+        self.next_id_iss = id_iss          # appended to the provider's issuer in the ID token ("" = the configured issuer)
         self.next_fail = fail
         before = len(self.sent)
         q = "&".join(f"{k}={v}" for k, v in ((("oauth_verifier", code), ("oauth_token", state)) if self.oauth1 else (("code", code), ("state", state))) if v is not None)
